@@ -49,6 +49,21 @@ CHECKS.append({
             "(bit-exact storage is checked on the implementation side, not proved); only 2-D shapes are covered by the theorems.",
 })
 
+CHECKS.append({
+    "property_id": "C19",
+    "design_ref": "DESIGN.md 5 (C19)",
+    "technique": "Coq proof over name predicates and wrap expression regenerated from results._parse_injested_data (string reasoning for arbitrary "
+                 "suffixes; real-analysis lemma for the wrap) + vm_compute / interval correspondence with the real routine on an xarray stand-in",
+    "text": "Seven theorems (Props/C19.v): for every suffix ''|'_'+anything, theta+suffix is wrapped; all 21 other profile/sky/loss parameter names + "
+            "marker-free suffix pass through unchanged; *_poly_coeff and bspl_w_* pass through; *_base/_auto_loc/unwrapped are dropped; model* is "
+            "moved to .models unwrapped; wrap(x) is in [0,pi) and equals x + k*pi.  Predicates and wrap expression are re-extracted on each run; "
+            "the per-variable fate of the real routine over generated configurations is proved equal to the model's by vm_compute and the wrapped "
+            "values are certified by interval arithmetic inside Coq.",
+    "note": "Trusted: Coq kernel, vm_compute, Interval (primitive float/int axioms), Reals axioms (sig_forall_dec, sig_not_dec, "
+            "functional_extensionality_dep) for the wrap theorem; translator units ResultsParse/ProfileParams; CPython `in` modelled by PyStr.contains; "
+            "xarray stand-in for arviz.InferenceData; suffixes/band names containing a reserved marker are excluded by hypothesis.",
+})
+
 _PENDING = "check not built yet in this session (build order in DESIGN.md section 9); will be claimed once its Coq model, theorems and tie exist"
 NOT_APPLICABLE = [
     {"property_id": "C%02d" % i, "reason": _PENDING}
